@@ -310,6 +310,7 @@ def scratch_reuse(case, ctx):
     ctx.tag(f"steps:{len(steps)}", "dirty" if case["dirty"] else "clean", "exact" if shape == adv else "larger",
             "grids_differ" if len({st_["N"] for st_ in steps}) > 1 else None)
     ctx.nontrivial_if(len({st_["N"] for st_ in steps}) > 1)
+    kept = []
     for i, st_ in enumerate(steps):
         s = {"grid": [st_["N"], st_["N"]], "oversample": case["oversample"], "wavelength": st_["wavelength"],
              "z": case["z"], "dx": case["dx"], "du": case["du"], "shape": None, "extra": case["extra"],
@@ -317,7 +318,16 @@ def scratch_reuse(case, ctx):
         with lentil_call("C09.reuse.build", "Pupil multiply"):
             w, model = build(s)
         before = scratch.copy()
-        run_fft(s, w, model, "reused", "C09.reuse", wl=st_["wavelength"], scratch=scratch, before=before)
+        out_i, _got, ref_i, tol_i = run_fft(s, w, model, "reused", "C09.reuse", wl=st_["wavelength"], scratch=scratch, before=before)
+        kept.append((i, out_i, ref_i, tol_i))
+    # results obtained earlier with the buffer are still what they were: later propagations through the same buffer
+    # (and the caller scribbling over it) do not reach them
+    scratch[...] = -7.0 + 5.0j
+    for i, out_i, ref_i, tol_i in kept:
+        with lentil_call("C09.reuse.kept", f"field of the result of step {i} read after the loop"):
+            again = out_i.field
+        cm.compare_field("C09.reuse.kept", again, ref_i, tol_i, None, what=f"result of step {i} of {len(steps)} read after the "
+                                                                          f"buffer was used again:")
 
 
 # --- round-number set-ups whose grid size is decided by a rounding tie ------------------------------
